@@ -13,6 +13,7 @@ import (
 	"os"
 	"reflect"
 	"regexp/syntax"
+	"sort"
 	"strings"
 
 	"golang.org/x/tools/go/ssa"
@@ -88,15 +89,67 @@ func ruleNilDeref(c *Ctx, r *Rep) {
 			// the same place read again (x.f == nil && x.f.g …): a second load of what was just found nil, before
 			// anything could have changed it
 			if xo := pv.Origins(x); bad == "" && len(xo) == 1 && !strings.HasPrefix(xo[0], "K(") && !strings.HasPrefix(xo[0], "?") {
-				if _, isLoad := x.(*ssa.UnOp); isLoad {
+				if xl, isLoad := x.(*ssa.UnOp); isLoad {
+					// what was read sits in a local of the function: only a store below that local (or, once its address
+					// has left the function, a call) can change it; anywhere else every store and call may
+					var home *ssa.Alloc
+					for a := xl.X; a != nil; {
+						switch y := a.(type) {
+						case *ssa.FieldAddr:
+							a = y.X
+							continue
+						case *ssa.IndexAddr:
+							a = y.X
+							continue
+						case *ssa.Alloc:
+							home = y
+						}
+						break
+					}
+					rootedAt := func(addr ssa.Value) bool {
+						for a := addr; a != nil; {
+							switch y := a.(type) {
+							case *ssa.FieldAddr:
+								a = y.X
+								continue
+							case *ssa.IndexAddr:
+								a = y.X
+								continue
+							case *ssa.Alloc:
+								return y == home
+							}
+							break
+						}
+						return false
+					}
 				scan:
 					for _, ins := range b.Succs[idx].Instrs {
 						switch u := ins.(type) {
-						case ssa.CallInstruction, *ssa.Store, *ssa.MapUpdate:
-							break scan
+						case *ssa.Store:
+							if home == nil || rootedAt(u.Addr) {
+								break scan
+							}
+						case *ssa.MapUpdate:
+							if home == nil {
+								break scan
+							}
+						case ssa.CallInstruction:
+							if bi, isB := u.Common().Value.(*ssa.Builtin); isB && bi.Name() != "copy" && bi.Name() != "append" {
+								continue
+							}
+							if home == nil || home.Heap {
+								break scan
+							}
 						case *ssa.FieldAddr:
-							if y, isLoad := u.X.(*ssa.UnOp); isLoad && y != x && y.Op == token.MUL {
-								if yo := pv.Origins(y); len(yo) == 1 && yo[0] == xo[0] && len(b.Succs[idx].Preds) == 1 {
+							if u.X == x {
+								continue
+							}
+							if _, isPtr := u.X.Type().Underlying().(*types.Pointer); !isPtr {
+								continue
+							}
+							switch u.X.(type) {
+							case *ssa.UnOp, *ssa.Field:
+								if yo := pv.Origins(u.X); len(yo) == 1 && yo[0] == xo[0] && len(b.Succs[idx].Preds) == 1 {
 									bad, pos = "field "+fieldOfAddr(u).Name()+" addressed through a second read of "+xo[0], u.Pos()
 								}
 							}
@@ -1802,6 +1855,56 @@ func ruleTautLen(c *Ctx, r *Rep) {
 		}
 	}
 	_ = n
+	// a loop over a list behind a test of that list's length: the test lets exactly the non-empty list through. The
+	// other way round the loop never runs (the elements are dropped from what is encoded); a higher threshold drops short
+	// lists.
+	for _, fn := range c.Funcs {
+		k := 0
+		for h := range naturalLoops(fn) {
+			iff, ok := lastInstr(h).(*ssa.If)
+			if !ok {
+				continue
+			}
+			cmp, ok := iff.Cond.(*ssa.BinOp)
+			if !ok || cmp.Op != token.LSS {
+				continue
+			}
+			list, ok := lenOperand(cmp.Y)
+			if !ok {
+				continue
+			}
+			for _, g := range guardsOf(h) {
+				cond := g.Cond
+				if u, isNot := cond.(*ssa.UnOp); isNot && u.Op == token.NOT {
+					cond = u.X
+				}
+				bin, isBin := cond.(*ssa.BinOp)
+				if !isBin {
+					continue
+				}
+				of, isLen := lenOperand(bin.X)
+				if _, isK := bin.Y.(*ssa.Const); !isLen || !isK {
+					continue
+				}
+				if !(of == list || sameLoad(of, list) || sameFieldLoad(of, list)) {
+					continue
+				}
+				_, empty, isE := emptyTestOf(g.Cond, g.Truth)
+				if !isE && (bin.Op == token.EQL || bin.Op == token.NEQ) {
+					continue // an exact count demanded of the list (four octets): not a presence test
+				}
+				k++
+				found := "the list is known to be non-empty"
+				switch {
+				case !isE:
+					found = "a threshold other than emptiness decides whether the list is gone through"
+				case empty:
+					found = "the loop runs only where the list is known to be empty"
+				}
+				r.Check(isE && !empty, sprintf("loop-gate|%s#%d", c.FuncKey(fn), k), c.Pos(bin.Pos()), "a loop over a list behind a test of its length: the test lets exactly the non-empty list through", found)
+			}
+		}
+	}
 }
 
 // ---------------------------------------------------------------------------
@@ -1813,6 +1916,7 @@ func init() {
 
 func ruleArrFill(c *Ctx, r *Rep) {
 	for _, fn := range c.Funcs {
+		arrayNeverFilled(c, r, fn)
 		n := 0
 		for _, b := range fn.Blocks {
 			for _, ins := range b.Instrs {
@@ -1856,6 +1960,53 @@ func ruleArrFill(c *Ctx, r *Rep) {
 					continue
 				}
 				// what the guards say about len(list)
+				established := false
+				defer0 := func() {
+					// the list is handed in: every caller has established the length before the call
+					if prm, isP := list.(*ssa.Parameter); isP && !established {
+						idx := -1
+						for i, fp := range fn.Params {
+							if fp == prm {
+								idx = i
+							}
+						}
+						sites, good := 0, 0
+						for _, caller := range c.Funcs {
+							for _, site := range callsIn(caller) {
+								if site.Common().StaticCallee() != fn || idx < 0 || idx >= len(site.Common().Args) {
+									continue
+								}
+								sites++
+								arg := site.Common().Args[idx]
+								for _, g := range guardsOf(site.Block()) {
+									cond, truth := g.Cond, g.Truth
+									if u, ok := cond.(*ssa.UnOp); ok && u.Op == token.NOT {
+										cond, truth = u.X, !truth
+									}
+									bin, ok := cond.(*ssa.BinOp)
+									if !ok || (bin.Op != token.EQL && bin.Op != token.NEQ) || (bin.Op == token.EQL) != truth {
+										continue
+									}
+									s2, isLen := lenOperand(bin.X)
+									k, isK := bin.Y.(*ssa.Const)
+									if isLen && isK && k.Value != nil && (s2 == arg || sameLoad(s2, arg)) && k.Int64() == arr.Len() {
+										good++
+										break
+									}
+								}
+							}
+						}
+						if sites > 0 && good == sites {
+							established = true
+							n++
+							r.Check(true, sprintf("fill|%s#%d", c.FuncKey(fn), n), c.Pos(ia.Pos()), sprintf("the list has %d elements, as many as the array", arr.Len()), sprintf("%d, established at all %d call sites", arr.Len(), sites))
+						}
+					}
+					if !established {
+						n++
+						r.Check(false, sprintf("fill|%s#%d", c.FuncKey(fn), n), c.Pos(ia.Pos()), sprintf("on the way to the fill the list is known to have %d elements, as many as the array", arr.Len()), "no test on the way says so")
+					}
+				}
 				for _, g := range guardsOf(b) {
 					cond, truth := g.Cond, g.Truth
 					if u, ok := cond.(*ssa.UnOp); ok && u.Op == token.NOT {
@@ -1874,9 +2025,79 @@ func ruleArrFill(c *Ctx, r *Rep) {
 						continue // on this edge the length merely differs from the constant
 					}
 					n++
+					established = true
 					r.Check(k.Int64() == arr.Len(), sprintf("fill|%s#%d", c.FuncKey(fn), n), c.Pos(ia.Pos()), sprintf("the list has %d elements, as many as the array", arr.Len()), sprintf("%d", k.Int64()))
 				}
+				defer0()
 			}
+		}
+	}
+}
+
+// arrayNeverFilled: a local array that is handed on whole although nothing ever stores into it (the statement that
+// filled it is gone): an address of four zero octets.
+func arrayNeverFilled(c *Ctx, r *Rep, fn *ssa.Function) {
+	n := 0
+	for _, b := range fn.Blocks {
+		for _, ins := range b.Instrs {
+			// a variable nothing stores into is no variable at all in this form: its zero value is handed on as a constant
+			if mi, ok := ins.(*ssa.MakeInterface); ok {
+				if k, isK := mi.X.(*ssa.Const); isK {
+					if _, isArr := k.Type().Underlying().(*types.Array); isArr {
+						if nt, isNamed := k.Type().(*types.Named); isNamed && c.IsModObj(nt.Obj()) {
+							pos := mi.Pos()
+							if pos == token.NoPos {
+								pos = fn.Pos()
+							}
+							n++
+							r.Check(false, sprintf("array-filled|%s#%d", c.FuncKey(fn), n), c.Pos(pos), "an array value that is handed on is stored into somewhere", "the zero value of "+nt.Obj().Name()+" is handed on")
+						}
+					}
+				}
+			}
+			al, ok := ins.(*ssa.Alloc)
+			if !ok {
+				continue
+			}
+			pt, ok := al.Type().Underlying().(*types.Pointer)
+			if !ok {
+				continue
+			}
+			if _, isArr := pt.Elem().Underlying().(*types.Array); !isArr {
+				continue
+			}
+			if al.Comment == "makeslice" || al.Comment == "slicelit" || al.Comment == "varargs" || al.Comment == "complit" {
+				continue // backing stores made by the compiler for make, literals and variadic calls
+			}
+			written, read := false, false
+			var readAt token.Pos
+			for _, ref := range *al.Referrers() {
+				switch u := ref.(type) {
+				case *ssa.Store:
+					if u.Addr == ssa.Value(al) {
+						written = true
+					}
+				case *ssa.IndexAddr:
+					for _, r2 := range *u.Referrers() {
+						if st, ok := r2.(*ssa.Store); ok && st.Addr == ssa.Value(u) {
+							written = true
+						}
+					}
+				case *ssa.Slice:
+					written = true // handed out as a slice: may be filled through it
+				case *ssa.UnOp:
+					if u.Op == token.MUL {
+						read, readAt = true, u.Pos()
+					}
+				case ssa.CallInstruction, *ssa.MakeClosure, *ssa.Phi, *ssa.MakeInterface:
+					written = true // address escapes
+				}
+			}
+			if !read {
+				continue
+			}
+			n++
+			r.Check(written, sprintf("array-filled|%s#%d", c.FuncKey(fn), n), c.Pos(readAt), "a local array that is handed on whole is stored into somewhere", sprintf("stored into: %v", written))
 		}
 	}
 }
@@ -2498,6 +2719,896 @@ func ruleOptEmpty(c *Ctx, r *Rep) {
 				n[key]++
 				bad, what := madeUnguarded(st.Val, 0)
 				r.Check(!bad, sprintf("stays-absent|%s#%d", key, n[key]), c.Pos(st.Pos()), "the list stored is nil when nothing is configured ("+why+")", what)
+			}
+		}
+	}
+}
+
+func init() {
+	register(&Rule{Name: "LINT-LOOPINV", Floor: 20, Run: ruleLoopInvariantCond, Fixture: "fixture.loopConditionNeverChanges",
+		Doc: "a loop that is left through its condition changes something the condition reads: a loop whose condition is computed only from values that nothing inside the loop writes either never runs or never ends (opening, planning and signing succeed or return an error - they do not hang on a file's content)"})
+}
+
+// ruleLoopInvariantCond: for every loop whose header ends in a test, the test reads at least one thing that the loop
+// can change - a loop-carried variable, the result of a call or of a range step made inside the loop, or memory that
+// the loop stores to (or that escapes to a call inside the loop).
+func ruleLoopInvariantCond(c *Ctx, r *Rep) {
+	for _, fn := range c.Funcs {
+		loops := naturalLoops(fn)
+		var heads []*ssa.BasicBlock
+		for h := range loops {
+			heads = append(heads, h)
+		}
+		sort.Slice(heads, func(i, j int) bool { return heads[i].Index < heads[j].Index })
+		n := 0
+		for _, h := range heads {
+			body := loops[h]
+			iff, ok := lastInstr(h).(*ssa.If)
+			if !ok {
+				continue // `for { … }`: left by break or return only
+			}
+			if body[h.Succs[0]] == body[h.Succs[1]] {
+				continue // the test does not decide whether the loop goes on
+			}
+			// what the loop writes
+			var stores []*ssa.Store
+			callsInside := false
+			for b := range body {
+				for _, ins := range b.Instrs {
+					switch x := ins.(type) {
+					case *ssa.Store:
+						stores = append(stores, x)
+					case *ssa.MapUpdate:
+						callsInside = true
+					case ssa.CallInstruction:
+						if _, isB := x.Common().Value.(*ssa.Builtin); !isB {
+							callsInside = true
+						}
+					}
+				}
+			}
+			seen := map[ssa.Value]bool{}
+			var varies func(v ssa.Value, depth int) bool
+			varies = func(v ssa.Value, depth int) bool {
+				if v == nil || seen[v] || depth > 12 {
+					return false
+				}
+				seen[v] = true
+				ins, isIns := v.(ssa.Instruction)
+				inside := isIns && ins.Block() != nil && body[ins.Block()]
+				switch x := v.(type) {
+				case *ssa.Const, *ssa.Parameter, *ssa.Global, *ssa.FreeVar, *ssa.Function, *ssa.Builtin:
+					return false
+				case *ssa.Phi:
+					return inside // carried around the loop (or joined inside it)
+				case *ssa.Next, *ssa.Range, *ssa.Select, *ssa.TypeAssert, *ssa.Lookup:
+					return inside
+				case *ssa.Extract:
+					return varies(x.Tuple, depth+1)
+				case *ssa.Call:
+					if b, isB := x.Call.Value.(*ssa.Builtin); isB && (b.Name() == "len" || b.Name() == "cap") {
+						return varies(x.Call.Args[0], depth+1)
+					}
+					return inside // a call made in the loop may answer differently each time
+				case *ssa.UnOp:
+					if x.Op != token.MUL {
+						return varies(x.X, depth+1)
+					}
+					if !inside {
+						return false // read once before the loop
+					}
+					// a read of memory: does the loop write there?
+					for _, st := range stores {
+						if st.Addr == x.X {
+							return true
+						}
+						fa, ok1 := st.Addr.(*ssa.FieldAddr)
+						fb, ok2 := x.X.(*ssa.FieldAddr)
+						if ok1 && ok2 && fa.Field == fb.Field && types.Identical(fa.X.Type(), fb.X.Type()) {
+							return true
+						}
+						ia, ok1 := st.Addr.(*ssa.IndexAddr)
+						ib, ok2 := x.X.(*ssa.IndexAddr)
+						if ok1 && ok2 && types.Identical(ia.X.Type(), ib.X.Type()) {
+							return true
+						}
+					}
+					if callsInside {
+						// memory reachable by a call made in the loop: anything but a local that never leaves the function
+						if al, isAl := x.X.(*ssa.Alloc); isAl && !al.Heap {
+							return varies(x.X, depth+1)
+						}
+						return true
+					}
+					return varies(x.X, depth+1)
+				case *ssa.BinOp:
+					return varies(x.X, depth+1) || varies(x.Y, depth+1)
+				case *ssa.FieldAddr:
+					return varies(x.X, depth+1)
+				case *ssa.IndexAddr:
+					return varies(x.X, depth+1) || varies(x.Index, depth+1)
+				case *ssa.Index:
+					return varies(x.X, depth+1) || varies(x.Index, depth+1)
+				case *ssa.Field:
+					return varies(x.X, depth+1)
+				case *ssa.Slice:
+					return varies(x.X, depth+1) || varies(x.Low, depth+1) || varies(x.High, depth+1)
+				case *ssa.Convert:
+					return varies(x.X, depth+1)
+				case *ssa.ChangeType:
+					return varies(x.X, depth+1)
+				case *ssa.ChangeInterface:
+					return varies(x.X, depth+1)
+				case *ssa.MakeInterface:
+					return varies(x.X, depth+1)
+				case *ssa.Alloc:
+					return false
+				}
+				return inside // anything else computed inside the loop: assume it can change
+			}
+			n++
+			ok = varies(iff.Cond, 0)
+			pos := iff.Cond.Pos()
+			if pos == token.NoPos {
+				for _, ins := range h.Instrs {
+					if ins.Pos() != token.NoPos {
+						pos = ins.Pos()
+						break
+					}
+				}
+			}
+			r.Check(ok, sprintf("condition-can-change|%s#%d", c.FuncKey(fn), n), c.Pos(pos), "the loop's condition reads something the loop changes", sprintf("%v", ok))
+		}
+	}
+}
+
+func init() {
+	register(&Rule{Name: "LINT-NILSIG", Floor: 2, Run: ruleNilSignificant, Fixture: "fixture.copyLosesNilness",
+		Doc: "where module code tells a nil list from an empty one by a nil test of a struct field (a profile without an attribute list accepts every subject, one with an empty list does not), no copy of that field is made by an idiom that merges the two: append([]T(nil), src...) turns empty into nil, an unguarded make([]T, len(src)) turns nil into empty"})
+}
+
+// ruleNilSignificant: the fields whose nil-ness some branch of the module reads are collected from the nil tests; every
+// store into such a field is looked at.
+func ruleNilSignificant(c *Ctx, r *Rep) {
+	type fkey struct {
+		owner *types.Named
+		idx   int
+	}
+	fieldOfLoad := func(v ssa.Value) (fkey, bool) {
+		ld, ok := v.(*ssa.UnOp)
+		if !ok || ld.Op != token.MUL {
+			return fkey{}, false
+		}
+		fa, ok := ld.X.(*ssa.FieldAddr)
+		if !ok {
+			return fkey{}, false
+		}
+		pt, ok := fa.X.Type().Underlying().(*types.Pointer)
+		if !ok {
+			return fkey{}, false
+		}
+		nt, ok := pt.Elem().(*types.Named)
+		if !ok || !c.IsModObj(nt.Obj()) {
+			return fkey{}, false
+		}
+		return fkey{nt, fa.Field}, true
+	}
+	sig := map[fkey]string{}
+	for _, fn := range c.Funcs {
+		for _, b := range fn.Blocks {
+			iff, ok := lastInstr(b).(*ssa.If)
+			if !ok {
+				continue
+			}
+			x, _, ok := nilTestOf(iff.Cond, true)
+			if !ok {
+				continue
+			}
+			if _, isSlice := x.Type().Underlying().(*types.Slice); !isSlice {
+				continue
+			}
+			if k, ok := fieldOfLoad(x); ok {
+				if _, have := sig[k]; !have {
+					sig[k] = c.Pos(iff.Cond.Pos())
+				}
+			}
+		}
+	}
+	n := map[string]int{}
+	for _, fn := range c.Funcs {
+		for _, b := range fn.Blocks {
+			for _, ins := range b.Instrs {
+				st, ok := ins.(*ssa.Store)
+				if !ok {
+					continue
+				}
+				fa, ok := st.Addr.(*ssa.FieldAddr)
+				if !ok {
+					continue
+				}
+				pt, ok := fa.X.Type().Underlying().(*types.Pointer)
+				if !ok {
+					continue
+				}
+				nt, ok := pt.Elem().(*types.Named)
+				if !ok {
+					continue
+				}
+				where, ok := sig[fkey{nt, fa.Field}]
+				if !ok {
+					continue
+				}
+				key := nt.Obj().Name() + "." + fieldOfAddr(fa).Name() + "|" + c.FuncKey(fn)
+				n[key]++
+				bad := ""
+				guardedByNilTest := func(blk *ssa.BasicBlock) bool {
+					for _, g := range guardsOf(blk) {
+						if x, _, ok := nilTestOf(g.Cond, g.Truth); ok {
+							if _, isSlice := x.Type().Underlying().(*types.Slice); isSlice {
+								return true
+							}
+						}
+					}
+					return false
+				}
+				switch v := st.Val.(type) {
+				case *ssa.Call:
+					if bi, isB := v.Call.Value.(*ssa.Builtin); isB && bi.Name() == "append" {
+						if k, isK := v.Call.Args[0].(*ssa.Const); isK && k.Value == nil && !guardedByNilTest(v.Block()) {
+							bad = "append(nil, src...) is nil when src is empty"
+						}
+					}
+				case *ssa.MakeSlice:
+					if _, _, ok := lenPlus(v.Len); ok && !guardedByNilTest(v.Block()) {
+						bad = "make(…, len(src)) is not nil when src is"
+					}
+				}
+				r.Check(bad == "", sprintf("nilness-kept|%s#%d", key, n[key]), c.Pos(st.Pos()), "the value stored keeps nil and empty apart (the field's nil-ness is tested at "+where+")", bad)
+			}
+		}
+	}
+}
+
+func init() {
+	register(&Rule{Name: "LINT-CLIARGS", Floor: 0, Run: ruleCliArgs,
+		Doc: "a command's Run function reads args[i] only for i below the number of arguments its Args validator (cobra.ExactArgs / MinimumNArgs / RangeArgs) guarantees: an index beyond it panics on every invocation with the advertised number of arguments"})
+}
+
+func ruleCliArgs(c *Ctx, r *Rep) {
+	for _, fn := range c.Funcs {
+		// the command literals built in fn: Run and Args stored into the same cobra.Command
+		type cmd struct {
+			run *ssa.Function
+			min int64
+			has bool
+		}
+		cmds := map[ssa.Value]*cmd{}
+		for _, b := range fn.Blocks {
+			for _, ins := range b.Instrs {
+				st, ok := ins.(*ssa.Store)
+				if !ok {
+					continue
+				}
+				fa, ok := st.Addr.(*ssa.FieldAddr)
+				if !ok || !strings.HasSuffix(types.TypeString(fa.X.Type(), nil), "cobra.Command") {
+					continue
+				}
+				cm := cmds[fa.X]
+				if cm == nil {
+					cm = &cmd{}
+					cmds[fa.X] = cm
+				}
+				switch fieldOfAddr(fa).Name() {
+				case "Run", "RunE":
+					switch v := st.Val.(type) {
+					case *ssa.MakeClosure:
+						cm.run, _ = v.Fn.(*ssa.Function)
+					case *ssa.Function:
+						cm.run = v
+					}
+				case "Args":
+					if call, ok := st.Val.(*ssa.Call); ok && len(call.Call.Args) >= 1 {
+						name := calleeFullName(call)
+						if k, isK := call.Call.Args[0].(*ssa.Const); isK && k.Value != nil &&
+							(strings.HasSuffix(name, "cobra.ExactArgs") || strings.HasSuffix(name, "cobra.MinimumNArgs") || strings.HasSuffix(name, "cobra.RangeArgs")) {
+							cm.min, cm.has = k.Int64(), true
+						}
+					}
+				}
+			}
+		}
+		for _, cm := range cmds {
+			if cm.run == nil || len(cm.run.Params) < 2 {
+				continue
+			}
+			// the argument list in the Run function and in the module functions it hands the whole list to
+			type site struct {
+				fn   *ssa.Function
+				args *ssa.Parameter
+			}
+			work := []site{{cm.run, cm.run.Params[len(cm.run.Params)-1]}}
+			seenFn := map[*ssa.Function]bool{cm.run: true}
+			for i := 0; i < len(work) && i < 8; i++ {
+				for _, ci := range callsIn(work[i].fn) {
+					callee := ci.Common().StaticCallee()
+					if callee == nil || callee.Blocks == nil || !c.InModule(callee) || seenFn[callee] {
+						continue
+					}
+					for j, a := range ci.Common().Args {
+						if a == ssa.Value(work[i].args) && j < len(callee.Params) {
+							seenFn[callee] = true
+							work = append(work, site{callee, callee.Params[j]})
+						}
+					}
+				}
+			}
+			n := 0
+			for _, w := range work {
+				args := w.args
+				for _, b := range w.fn.Blocks {
+					for _, ins := range b.Instrs {
+						ia, ok := ins.(*ssa.IndexAddr)
+						if !ok || ia.X != ssa.Value(args) {
+							continue
+						}
+						k, isK := ia.Index.(*ssa.Const)
+						if !isK || k.Value == nil {
+							continue
+						}
+						n++
+						// a length test on the way also does
+						ok2 := cm.has && k.Int64() < cm.min
+						if !ok2 {
+							if lb := lenLowerBound(c, args, b); k.Int64() < lb {
+								ok2 = true
+							}
+						}
+						r.Check(ok2, sprintf("args-index|%s#%d", c.FuncKey(cm.run), n), c.Pos(ia.Pos()), sprintf("args[%d] lies below the argument count the command's validator guarantees", k.Int64()), sprintf("guaranteed: %d (validator found: %v)", cm.min, cm.has))
+					}
+				}
+			}
+		}
+	}
+}
+
+func init() {
+	register(&Rule{Name: "NAMED-BITS", Floor: 2, Run: ruleNamedBits,
+		Doc: "a named-bit list (keyUsage) is encoded as DER prescribes: where the BIT STRING's length is K minus the trailing zero bits of the octets' last byte, K is 8 times the number of octets, and when no bit is set (length 0) the octets are cut to nothing on that very branch"})
+}
+
+// ruleNamedBits: BitLength = K - TrailingZeros8(buf[0]) with buf of constant length n: K == 8n; Bytes is buf, or buf[:0]
+// exactly where the length is known to be 0.
+func ruleNamedBits(c *Ctx, r *Rep) {
+	bufLen := func(v ssa.Value) (ssa.Value, int64, bool) {
+		switch x := v.(type) {
+		case *ssa.MakeSlice:
+			if k, ok := x.Len.(*ssa.Const); ok && k.Value != nil {
+				return x, k.Int64(), true
+			}
+		case *ssa.Slice:
+			if al, ok := x.X.(*ssa.Alloc); ok {
+				if pt, ok := al.Type().Underlying().(*types.Pointer); ok {
+					if arr, ok := pt.Elem().Underlying().(*types.Array); ok {
+						n := arr.Len()
+						if k, ok := x.High.(*ssa.Const); ok && k.Value != nil {
+							n = k.Int64()
+						}
+						return x, n, true
+					}
+				}
+			}
+		}
+		return nil, 0, false
+	}
+	for _, fn := range c.Funcs {
+		for _, ci := range callsIn(fn) {
+			if !strings.HasPrefix(calleeFullName(ci), "math/bits.TrailingZeros") {
+				continue
+			}
+			tz := ci.Value()
+			if tz == nil {
+				continue
+			}
+			fk := c.FuncKey(fn)
+			for _, ref := range *tz.Referrers() {
+				sub, ok := ref.(*ssa.BinOp)
+				if !ok || sub.Op != token.SUB || sub.Y != ssa.Value(tz) {
+					continue
+				}
+				K, isK := sub.X.(*ssa.Const)
+				if !isK || K.Value == nil {
+					r.Undecided("shape:width|"+fk, c.Pos(sub.Pos()), "the length is not a constant minus the trailing zeros")
+					continue
+				}
+				// the byte looked at: buf[const], or the value a one-element list is made of
+				var buf ssa.Value
+				var n int64
+				if ld, ok := ci.Common().Args[0].(*ssa.UnOp); ok && ld.Op == token.MUL {
+					if ia, ok := ld.X.(*ssa.IndexAddr); ok {
+						if b, l, ok := bufLen(ia.X); ok {
+							buf, n = b, l
+						}
+					}
+				}
+				if buf == nil {
+					arg := ci.Common().Args[0]
+					for _, ref := range *arg.Referrers() {
+						st, ok := ref.(*ssa.Store)
+						if !ok || st.Val != arg {
+							continue
+						}
+						ia, ok := st.Addr.(*ssa.IndexAddr)
+						if !ok {
+							continue
+						}
+						// the list over the array this element belongs to
+						if al, ok := ia.X.(*ssa.Alloc); ok {
+							for _, r2 := range *al.Referrers() {
+								if sl, ok := r2.(*ssa.Slice); ok {
+									if b, l, ok := bufLen(sl); ok {
+										buf, n = b, l
+									}
+								}
+							}
+						}
+					}
+				}
+				if buf == nil {
+					r.Undecided("shape:octets|"+fk, c.Pos(ci.Pos()), "the byte whose trailing zeros are counted is not an element of a list of constant length")
+					continue
+				}
+				r.Check(K.Int64() == 8*n, "width|"+fk, c.Pos(sub.Pos()), sprintf("length = %d - trailing zeros for %d octet(s)", 8*n, n), sprintf("%d - trailing zeros", K.Int64()))
+				// where the length goes: the BIT STRING built from it
+				for _, ref2 := range *sub.Referrers() {
+					st, ok := ref2.(*ssa.Store)
+					if !ok {
+						continue
+					}
+					fa, ok := st.Addr.(*ssa.FieldAddr)
+					if !ok || fieldOfAddr(fa).Name() != "BitLength" {
+						continue
+					}
+					var bytesVal ssa.Value
+					for _, ref3 := range *fa.X.Referrers() {
+						if fb, ok := ref3.(*ssa.FieldAddr); ok && fieldOfAddr(fb).Name() == "Bytes" {
+							for _, ref4 := range *fb.Referrers() {
+								if sb, ok := ref4.(*ssa.Store); ok && sb.Addr == ssa.Value(fb) {
+									bytesVal = sb.Val
+								}
+							}
+						}
+					}
+					if bytesVal == nil {
+						r.Undecided("shape:bytes|"+fk, c.Pos(st.Pos()), "no store into Bytes beside the length")
+						continue
+					}
+					// the ways into Bytes
+					type in struct {
+						v    ssa.Value
+						from *ssa.BasicBlock
+						to   *ssa.BasicBlock
+					}
+					var ins []in
+					if phi, ok := bytesVal.(*ssa.Phi); ok {
+						for _, e := range flattenPhi(phi) {
+							ins = append(ins, in{e.val, e.from, e.to})
+						}
+					} else {
+						ins = []in{{bytesVal, nil, nil}}
+					}
+					cutWhenZero, wholeOtherwise, other := false, false, ""
+					for _, e := range ins {
+						var gs []guard
+						if e.from != nil {
+							gs = append(guardsOf(e.from), edgeGuard(e.from, e.to)...)
+						}
+						zero, nonzero := false, false
+						for _, g := range gs {
+							if bin, ok := g.Cond.(*ssa.BinOp); ok && bin.X == ssa.Value(sub) {
+								if k, ok := bin.Y.(*ssa.Const); ok && k.Value != nil && k.Int64() == 0 {
+									isZero := (bin.Op == token.EQL && g.Truth) || (bin.Op == token.NEQ && !g.Truth) || (bin.Op == token.GTR && !g.Truth)
+									if isZero {
+										zero = true
+									} else {
+										nonzero = true
+									}
+								}
+							}
+						}
+						switch x := e.v.(type) {
+						case *ssa.Slice:
+							if x == buf {
+								if !zero {
+									wholeOtherwise = true
+								}
+								continue
+							}
+							if x.X == buf {
+								hi, isHi := x.High.(*ssa.Const)
+								if isHi && hi.Value != nil && hi.Int64() == 0 && x.Low == nil && zero {
+									cutWhenZero = true
+									continue
+								}
+								other = "the octets are cut to " + x.String() + " (zero length known: " + sprintf("%v", zero) + ")"
+								continue
+							}
+							other = "another list"
+						default:
+							if e.v == buf {
+								if !zero {
+									wholeOtherwise = true
+								}
+								continue
+							}
+							other = "another list"
+						}
+						_ = nonzero
+					}
+					r.Check(cutWhenZero && wholeOtherwise && other == "", "empty-when-no-bits|"+fk, c.Pos(st.Pos()), "Bytes is the octet list, cut to nothing exactly where the length is known to be 0", sprintf("cut when zero: %v, whole otherwise: %v %s", cutWhenZero, wholeOtherwise, other))
+				}
+			}
+		}
+	}
+}
+
+func init() {
+	register(&Rule{Name: "LINT-BUFLOOP", Floor: 1, Run: ruleBufLoop, Fixture: "fixture.bufferNotResetInLoop",
+		Doc: "a bytes.Buffer made before a loop, written and read inside it, is emptied inside it (Reset): otherwise the second element's encoding starts with the first's. Also: nothing is written from a value that is the constant nil (the statement that filled it is gone)"})
+}
+
+func ruleBufLoop(c *Ctx, r *Rep) {
+	isBuf := func(t types.Type) bool {
+		return typeIs(t, "bytes", "Buffer")
+	}
+	for _, fn := range c.Funcs {
+		loops := naturalLoops(fn)
+		// buffers: allocations of bytes.Buffer (new(bytes.Buffer), a local, &bytes.Buffer{})
+		n := 0
+		for _, b := range fn.Blocks {
+			for _, ins := range b.Instrs {
+				al, ok := ins.(*ssa.Alloc)
+				if !ok || !isBuf(al.Type()) {
+					continue
+				}
+				for h, body := range loops {
+					if body[al.Block()] {
+						continue // made anew each round
+					}
+					written, read, reset := false, false, false
+					var at token.Pos
+					for _, ref := range *al.Referrers() {
+						ci, ok := ref.(ssa.CallInstruction)
+						if !ok || !body[ref.Block()] {
+							continue
+						}
+						name := calleeFullName(ci)
+						isRecv := len(ci.Common().Args) > 0 && ci.Common().Args[0] == ssa.Value(al)
+						switch {
+						case isRecv && strings.HasPrefix(name, "(*bytes.Buffer).Write"):
+							written = true
+						case isRecv && (name == "(*bytes.Buffer).Reset" || name == "(*bytes.Buffer).Truncate"):
+							reset = true
+						case isRecv && (name == "(*bytes.Buffer).Bytes" || name == "(*bytes.Buffer).String" || name == "(*bytes.Buffer).Len"):
+							read = true
+							at = ci.Pos()
+						}
+					}
+					if !written || !read {
+						continue
+					}
+					n++
+					_ = h
+					r.Check(reset, sprintf("reset-in-loop|%s#%d", c.FuncKey(fn), n), c.Pos(at), "a buffer made before the loop and written and read inside it is reset inside it", sprintf("reset: %v", reset))
+				}
+			}
+		}
+		// writes of the constant nil
+		k := 0
+		for _, ci := range callsIn(fn) {
+			name := calleeFullName(ci)
+			args := ci.Common().Args
+			var data ssa.Value
+			switch {
+			case (name == "(*bytes.Buffer).Write" || name == "(*bytes.Buffer).WriteString") && len(args) == 2:
+				data = args[1]
+			case ci.Common().IsInvoke() && ci.Common().Method.Name() == "Write" && len(args) == 1:
+				data = args[0]
+			default:
+				continue
+			}
+			k++
+			kc, isK := data.(*ssa.Const)
+			nothing := isK && (kc.Value == nil || (kc.Value.Kind() == constant.String && constant.StringVal(kc.Value) == ""))
+			r.Check(!nothing, sprintf("writes-something|%s#%d", c.FuncKey(fn), k), c.Pos(ci.Pos()), "what is written is not the constant nil", sprintf("constant nil: %v", nothing))
+		}
+	}
+}
+
+func init() {
+	register(&Rule{Name: "LINT-NILCHECKED", Floor: 3, Run: ruleNilChecked, Fixture: "fixture.checkedThenUsedUnchecked",
+		Doc: "a pointer held in a field that a function tests against nil (so nil is possible there) is not dereferenced further down where neither that test nor another one has established that it is not nil (a test joined with the wrong connective lets the nil through)"})
+}
+
+// ruleNilChecked: Engler's "checked, then used unchecked", for pointers read from a field of a local or a parameter. The
+// test says nil can occur; every later dereference of a fresh read of the same field needs a dominating fact that the
+// field is not nil, unless the field is stored to after the test.
+func ruleNilChecked(c *Ctx, r *Rep) {
+	type place struct {
+		base  ssa.Value
+		field int
+	}
+	placeOf := func(v ssa.Value) (place, bool) {
+		switch x := v.(type) {
+		case *ssa.UnOp:
+			if x.Op == token.MUL {
+				if fa, ok := x.X.(*ssa.FieldAddr); ok {
+					return place{fa.X, fa.Field}, true
+				}
+			}
+		case *ssa.Field:
+			// a field of a struct value loaded whole from a local
+			if ld, ok := x.X.(*ssa.UnOp); ok && ld.Op == token.MUL {
+				return place{ld.X, x.Field}, true
+			}
+		}
+		return place{}, false
+	}
+	for _, fn := range c.Funcs {
+		// the nil tests of field places, and for each block the places known non-nil there
+		type test struct {
+			p   place
+			iff *ssa.If
+		}
+		var tests []test
+		for _, b := range fn.Blocks {
+			iff, ok := lastInstr(b).(*ssa.If)
+			if !ok {
+				continue
+			}
+			x, _, ok := nilTestOf(iff.Cond, true)
+			if !ok {
+				continue
+			}
+			if _, isPtr := x.Type().Underlying().(*types.Pointer); !isPtr {
+				continue
+			}
+			if p, ok := placeOf(x); ok {
+				tests = append(tests, test{p, iff})
+			}
+		}
+		if len(tests) == 0 {
+			continue
+		}
+		storedAfter := func(p place, from *ssa.BasicBlock) bool {
+			for _, b := range fn.Blocks {
+				if !from.Dominates(b) {
+					continue
+				}
+				for _, ins := range b.Instrs {
+					if st, ok := ins.(*ssa.Store); ok {
+						if fa, ok := st.Addr.(*ssa.FieldAddr); ok && fa.Field == p.field && (fa.X == p.base || types.Identical(fa.X.Type(), p.base.Type())) {
+							return true
+						}
+						if st.Addr == p.base {
+							return true // the whole struct is overwritten
+						}
+					}
+				}
+			}
+			return false
+		}
+		n := 0
+		seen := map[ssa.Instruction]bool{}
+		for _, t := range tests {
+			if storedAfter(t.p, t.iff.Block()) {
+				continue
+			}
+			for _, b := range fn.Blocks {
+				if b == t.iff.Block() || !blockReaches(t.iff.Block(), b) {
+					continue
+				}
+				for _, ins := range b.Instrs {
+					if seen[ins] {
+						continue
+					}
+					var through ssa.Value
+					what := ""
+					switch u := ins.(type) {
+					case *ssa.FieldAddr:
+						through, what = u.X, "field "+fieldOfAddr(u).Name()
+					case *ssa.UnOp:
+						if u.Op == token.MUL {
+							through, what = u.X, "the value pointed to"
+						}
+					}
+					if through == nil {
+						continue
+					}
+					p, ok := placeOf(through)
+					if !ok || p != t.p {
+						continue
+					}
+					seen[ins] = true
+					n++
+					known := false
+					for _, g := range guardsOf(b) {
+						if x, isNil, ok := nilTestOf(g.Cond, g.Truth); ok && !isNil {
+							if gp, ok := placeOf(x); ok && gp == p {
+								known = true
+							}
+						}
+					}
+					r.Check(known, sprintf("deref-after-test|%s#%d", c.FuncKey(fn), n), c.Pos(ins.Pos()), "a field tested against nil earlier is dereferenced only where a test has established that it is not nil", sprintf("%s: non-nil established: %v", what, known))
+				}
+			}
+		}
+	}
+}
+
+// blockReaches: b can be reached from a by following successor edges (a itself only round a loop).
+func blockReaches(a, b *ssa.BasicBlock) bool {
+	seen := map[*ssa.BasicBlock]bool{}
+	stack := append([]*ssa.BasicBlock{}, a.Succs...)
+	for len(stack) > 0 {
+		x := stack[len(stack)-1]
+		stack = stack[:len(stack)-1]
+		if seen[x] {
+			continue
+		}
+		seen[x] = true
+		if x == b {
+			return true
+		}
+		stack = append(stack, x.Succs...)
+	}
+	return false
+}
+
+func init() {
+	register(&Rule{Name: "LINT-FILLALL", Floor: 5, Run: ruleFillAll, Fixture: "fixture.elementSkippedWithoutStore",
+		Doc: "a loop that fills a list made with one place per element of what it ranges over fills a place on every way round: no path from the loop's body back to its head avoids all stores into that list (an element left at its zero value is an attribute, a qualifier or a name dropped from the certificate)"})
+}
+
+// ruleFillAll: out := make([]T, len(in)); for i := range in { … out[f(i)] = … }. Every back edge is reached only through
+// a store into out.
+func ruleFillAll(c *Ctx, r *Rep) {
+	for _, fn := range c.Funcs {
+		loops := naturalLoops(fn)
+		var heads []*ssa.BasicBlock
+		for h := range loops {
+			heads = append(heads, h)
+		}
+		sort.Slice(heads, func(i, j int) bool { return heads[i].Index < heads[j].Index })
+		n := 0
+		for _, h := range heads {
+			body := loops[h]
+			iff, ok := lastInstr(h).(*ssa.If)
+			if !ok {
+				continue
+			}
+			cmp, ok := iff.Cond.(*ssa.BinOp)
+			if !ok || cmp.Op != token.LSS {
+				continue
+			}
+			in, ok := lenOperand(cmp.Y)
+			if !ok {
+				continue
+			}
+			// the lists stored into inside the loop that were made, before the loop, with the length of `in`
+			filled := map[ssa.Value]bool{}
+			storeBlocks := map[ssa.Value]map[*ssa.BasicBlock]bool{}
+			for b := range body {
+				for _, ins := range b.Instrs {
+					st, ok := ins.(*ssa.Store)
+					if !ok {
+						continue
+					}
+					addr := st.Addr
+					for {
+						if fa, ok := addr.(*ssa.FieldAddr); ok {
+							addr = fa.X
+							continue
+						}
+						break
+					}
+					ia, ok := addr.(*ssa.IndexAddr)
+					if !ok {
+						continue
+					}
+					mk, ok := ia.X.(*ssa.MakeSlice)
+					if !ok || body[mk.Block()] {
+						continue
+					}
+					of, k, ok := lenPlus(mk.Len)
+					if !ok || k != 0 || !(of == in || sameLoad(of, in) || sameFieldLoad(of, in)) {
+						continue
+					}
+					filled[mk] = true
+					if storeBlocks[mk] == nil {
+						storeBlocks[mk] = map[*ssa.BasicBlock]bool{}
+					}
+					storeBlocks[mk][b] = true
+				}
+			}
+			for out := range filled {
+				// from the body's entry, can the head be reached again without passing a storing block?
+				var entry *ssa.BasicBlock
+				for _, sc := range h.Succs {
+					if body[sc] && sc != h {
+						entry = sc
+					}
+				}
+				if entry == nil {
+					continue
+				}
+				n++
+				avoid := false
+				seen := map[*ssa.BasicBlock]bool{}
+				stack := []*ssa.BasicBlock{entry}
+				for len(stack) > 0 && !avoid {
+					x := stack[len(stack)-1]
+					stack = stack[:len(stack)-1]
+					if seen[x] || !body[x] || storeBlocks[out][x] {
+						continue
+					}
+					seen[x] = true
+					for _, sc := range x.Succs {
+						if sc == h {
+							avoid = true
+						}
+						stack = append(stack, sc)
+					}
+				}
+				r.Check(!avoid, sprintf("every-round-stores|%s#%d", c.FuncKey(fn), n), c.Pos(out.Pos()), "no way round the loop leaves the element's place in the list unfilled", sprintf("a round without a store exists: %v", avoid))
+			}
+		}
+	}
+}
+
+func init() {
+	register(&Rule{Name: "LINT-KNOWNEMPTY", Floor: 1, Run: ruleKnownEmpty, Fixture: "fixture.storesWhatIsKnownEmpty",
+		Doc: "a text or list is not copied into a structure on the very branch where a test has just found it empty (the presence test of an optional value the wrong way round: the value is taken exactly when there is none)"})
+}
+
+// ruleKnownEmpty: for every store whose value is a read of a string or list, no dominating fact says that this very
+// read is empty. The instances counted are the stores that do lie behind an emptiness test of their value.
+func ruleKnownEmpty(c *Ctx, r *Rep) {
+	for _, fn := range c.Funcs {
+		n := 0
+		for _, b := range fn.Blocks {
+			gs := guardsOf(b)
+			if len(gs) == 0 {
+				continue
+			}
+			for _, ins := range b.Instrs {
+				st, ok := ins.(*ssa.Store)
+				if !ok {
+					continue
+				}
+				v := st.Val
+				switch v.Type().Underlying().(type) {
+				case *types.Slice:
+				case *types.Basic:
+					if !isStringish(v.Type()) {
+						continue
+					}
+				default:
+					continue
+				}
+				if _, isK := v.(*ssa.Const); isK {
+					continue
+				}
+				for _, g := range gs {
+					x, empty, ok := emptyTestOf(g.Cond, g.Truth)
+					if !ok {
+						continue
+					}
+					if !(x == v || sameLoad(x, v) || sameFieldLoad(x, v)) {
+						continue
+					}
+					n++
+					r.Check(!empty, sprintf("stored-where-present|%s#%d", c.FuncKey(fn), n), c.Pos(st.Pos()), "the value is stored where the test found it non-empty", sprintf("known empty here: %v", empty))
+				}
 			}
 		}
 	}
